@@ -4,6 +4,7 @@ from models.holpy import make_world
 from pyvc.verify import verify_function, verify_lemma
 w = make_world()
 w.uf_mul = bool(os.environ.get("UF_MUL"))
+w.feas_reduced = not os.environ.get("NO_FEAS_REDUCED")
 for m in os.environ.get('MODELS', '').split(','):
     if m: importlib.import_module(m).declare(w)
 for m in sys.argv[1].split(','):
